@@ -105,6 +105,15 @@ extern "C" void verif_harness() {
       double w0 = P[1][0] * P[2][0] + P[1][0] * P[2][1] + P[1][2] * P[2][0], w1 = P[0][1] * P[2][1] + P[0][1] * P[2][0] + P[0][2] * P[2][1], w2 = P[0][2] * P[1][2] + P[0][2] * P[1][0] + P[0][1] * P[1][2], sw = w0 + w1 + w2;
       eq[0] = w0 / sw; eq[1] = w1 / sw; eq[2] = w2 / sw; }
     VV E(L, vector<double>(n)); for (int i = 0; i < L; i++) for (int j = 0; j < n; j++) E[i][j] = sympos("e" + to_string(i) + to_string(j));
+#ifdef ZMAX
+    // zero entries (exact zeros, not small numbers): an absorbing state, a forbidden self-transition, an impossible emission
+    { int zp = __sym_choose("zeroEntry", ZMIN, ZMAX);
+      if (zp == 1 && n == 2) { P[0][0] = 1; P[0][1] = 0; eq[0] = 1; eq[1] = 0; }
+      if (zp == 2 && n == 2) { double b = P[1][0]; P[0][0] = 0; P[0][1] = 1; eq[0] = b / (1 + b); eq[1] = 1 / (1 + b); }
+      if (zp == 3) E[0][1] = 0;
+      if (zp == 4 && L > 1) E[1][0] = 0;
+      if (zp == 5 && n == 2) { double b = P[1][0]; P[0][0] = 0; P[0][1] = 1; eq[0] = b / (1 + b); eq[1] = 1 / (1 + b); E[L - 1][1] = 0; } }
+#endif
     vector<bool> isBp(L, false); vector<size_t> bps; for (int i = 1; i < L; i++) if (__sym_choose(("break" + to_string(i)).c_str(), 0, 1)) { isBp[i] = true; bps.push_back(i); }
     auto al = make_shared<Alpha>(n); auto tr = make_shared<Trans>(al, P, eq); auto em = make_shared<Emis>(al, E);
     double tot; VV acc; enumerate(P, eq, E, isBp, tot, acc);
